@@ -14,39 +14,71 @@ from props.c04 import (_guard, acs_lines, answer, circus_thresholds, frames_of, 
 
 PROP = "C06"
 MANIFEST = {
-    "text": "Lean 4 theorems for all widths/heights and parities: center_mask_func (pad = (N-L+1)//2) and the repaired "
-            "zero_pad_to_center give exactly L contiguous columns containing the centre column N//2, balanced within one column "
-            "(left/right counts explicit); Magic cap max(min(L, budget), 1) bounds; centered_disk_mask is a disc about the centre "
-            "sample (rows//2, cols//2), point-symmetric about it wherever the mirror image is on the grid (always, when the "
-            "radius does not reach row/column 0), contains the centre iff radius >= 1; the CIRCUS disc search returns disc ∩ mask; "
-            "for each of the 14 generators, every mode/shape/interior: ACS ⊆ mask element-wise. Witnesses (decide) that the pinned "
-            "(N-L)//2 start violates centring/balance. Tied to the code by translated kernels (pad, slice bounds, zero-pad "
-            "start/stop, num_low_freqs glue, Magic cap, disc predicates; bridge lemmas) and differential correspondence "
-            "(exhaustive small-scope kernels + real return_acs / mask calls with the same seed).",
-    "note": "Trusted: Lean kernel (+propext, Classical.choice, Quot.sound), AST translator, recording RandomState. Float glue "
-            "(round(N*cf) half-even, round(N/R), int(sqrt(rows*cols*cf/pi)), CIRCUS radii 1,1.1,…) is computed by the harness and "
-            "enters the model as integers. For CIRCUS without centre fraction the ACS is disc ∩ mask (not a full disc) by design of "
-            "the code; only the subset claim is made there. A centre fraction below pi/(rows*cols) gives radius 0 and an empty "
-            "ACS (outside 'feasible').",
-    "technique": "Lean 4 proof (omega, interval counting, list induction) + AST translation bridge + differential correspondence",
+    "text": "Lean 4 theorems, all widths/heights/parities, all histories, all seeds. Geometry: center_mask_func (pad = (N-L+1)//2) and "
+            "the repaired zero_pad_to_center give exactly L contiguous columns containing the centre column N//2, balanced within one "
+            "column; Magic cap bounds; centered_disk_mask is a disc about the centre sample, point-symmetric wherever the mirror image "
+            "is on the grid, contains the centre iff radius >= 1; the CIRCUS disc search returns disc ∩ mask; for each of the 14 "
+            "generators, every mode/shape/interior: ACS ⊆ mask element-wise; VariableDensityPoisson with crop_corner (repaired order "
+            "crop-then-disc): every disc cell is in the mask, with a witness that the pinned order (disc-then-crop) loses disc cells. "
+            "Width: the float glue is modelled exactly (binary64 product/quotient fl53, Python round half-even, int): "
+            "int(round(N*cf)) is within 1/2 + N*cf*2^-53 of N*cf (fl53_close, fraction_width_close, budget_close), ties go to even, the "
+            "constructor guards (0 < cf < 1 / int > 1) select the glue branch; chain theorems fastmri_acs_count / cartesian_acs_count. "
+            "Objects: a machine for one mask-function object (abstract RandomState, any number of pairs): every request leaves the "
+            "object unchanged, its answer is the fresh-object answer after ANY history (answer_history_independent), ACS(shape, seed) "
+            "after any history ⊆ mask(shape, seed) after any other history on any object (acs_subset_mask_any_history), the selected "
+            "pair is the same for both requests — for every seed, falsy ones included; witnesses that `rng.seed(seed or None)` and an "
+            "ACS memo keyed by the shape each break it. Tie: 28 translated kernels/tables (22 kernels, 6 tables) regenerated from /repo on every run — pad, "
+            "slice bounds, zero-pad start/stop, num_low_freqs expressions incl. the float operations and comparisons, Magic budget/cap, "
+            "constructor guards, disc predicates; structural tables with decided predicates: temp_seed hands the seed to rng.seed "
+            "unchanged, no instance/class/module state written and no memoising decorator / mutable default in the 27 functions reachable "
+            "from mask_func or __call__, __call__ = guards + forward, seed parameter never rebound and choose_acceleration before the "
+            "return_acs return, crop before disc in poisson(), CreateSamplingMask passes the same shape/seed to both requests, "
+            "integerize_seed returns ints unchanged; the tables select the machine the theorems are about (code_machine, "
+            "poisson_crop_before_disc). Differential correspondence: exhaustive small-scope kernels, fl53 against CPython, ACS widths "
+            "on and next to ties against real generators, real return_acs / mask calls, and whole call histories on persistent objects "
+            "run through the Lean machine with a numpy-only seed -> choice table.",
+    "note": "Trusted: Lean kernel (+propext, Classical.choice, Quot.sound; decide +kernel for three 192/256-cell witnesses), AST "
+            "translator (incl. the reused C05 walker), recording RandomState, worker subprocesses. Still computed by the harness: "
+            "int(sqrt(rows*cols*cf/pi)) and the CIRCUS radii 1, 1.1, … (floor of float32 radius²); the older generator-level lines "
+            "also still receive round(N*cf) from Python (the new num_low_exact / acs_hist lines do not). The seed -> pair-index table "
+            "of the history correspondence is RandomState(seed).randint(0, k) evaluated by numpy (MT19937 is not modelled; theorems "
+            "quantify over every stream). For CIRCUS without centre fraction the ACS is disc ∩ mask by design; only the subset claim "
+            "and 'sampled part of a disc' (oracle) are made there. Aliased writes (`m = self.memo; m[k] = v`) are invisible to the "
+            "state-write table; the history oracle covers them dynamically. numpy-integer seeds are rejected (ValueError) by the three "
+            "generators that call integerize_seed (Gaussian1D/2D, VariableDensityPoisson): reported in the histogram, not judged.",
+    "technique": "Lean 4 proof (omega, nlinarith, interval counting, list induction, state-machine induction) + AST translation bridge "
+                 "(kernels + structural tables) + differential correspondence incl. call histories",
 }
 TRUSTED = [
     "Lean 4.33 kernel; axioms ⊆ {propext, Classical.choice, Quot.sound}",
-    "harness/translate recipes c06/c04 (AST -> Lean kernels for subsample.py)",
-    "recording np.random.RandomState subclass; watchdog worker subprocess",
+    "harness/translate recipes c06/c04 and the C05 site walker reused by import (AST -> Lean kernels and tables for subsample.py, "
+    "mri_transforms.py)",
+    "recording np.random.RandomState subclass; watchdog worker subprocesses (props.maskgen_common.Worker, props.c06_hist)",
     "numpy slice-assignment semantics as encoded by sliceMask / normIdx (validated by correspondence incl. negative bounds)",
+    "numpy's RandomState(seed).randint(0, k) as the seed -> pair-index table of the model-side history check",
 ]
 ASSUMPTIONS = [
-    "round(N*cf), round(N/R), int(sqrt(rows*cols*cf/pi)) and floor(radius²) of the CIRCUS radii are evaluated in Python by "
-    "the harness and passed to the model as integers",
-    "feasible centre fractions: 1 <= L < N/R (line), radius >= 1 and disc inside the budget (2-D)",
+    "CPython float multiplication / int-int true division are correctly rounded binary64 and round() is half-even on the exact "
+    "double (the Lean model fl53 / roundHalfEven is compared with CPython on every run, key kernel/fl53/*)",
+    "int(sqrt(rows*cols*cf/pi)) and floor(radius²) of the CIRCUS radii are evaluated in Python by the harness and passed to the "
+    "model as integers",
+    "feasible centre fractions: 1 <= L < N/R (line), radius >= 1 and disc inside the budget (2-D); admissible seeds: ints in "
+    "[0, 2**32), bools, non-empty tuples/lists of such ints, numpy integers for the generators that do not call integerize_seed",
+    "the object machine reflects the code when the decided tables hold (seed unchanged, nothing written, __call__ forwards); "
+    "state kept through aliases or C extensions is outside the tables",
 ]
 RULE = ("kernel cases: every (N, L) with N <= 40 (quick) / 80 (thorough) incl. L > N and negative L; discs for rows/cols 1..24 "
-        "(quick) and sampled up to 80; generator cases: return_acs and mask with the same seed, every generator x mode; "
-        "non-trivial = 1 <= L < N (kernels) / a returned ACS with at least one sample (generators); distinct = distinct protocol line")
+        "(quick) and sampled up to 80; fl53: products N*cf, quotients N/R, ties and their neighbours, random 70-bit fractions; "
+        "num_low_exact: 9 line generators x fractions on/next to ties, rejected constructor arguments; generator cases: return_acs and "
+        "mask with the same seed, every generator x mode, edge seeds (0, 2**32-1, (0,), file-name tuples), several pairs; history "
+        "cases: one persistent object, 2-3 pairs, ~24 interleaved mask/ACS requests, two shapes, seed forms int/bool/tuple/list/"
+        "numpy/file name, falsy seeds repeated (oracle: 2 per generator quick, checked against fresh-object references; model: 1 per "
+        "generator through the Lean object machine); site cases: CreateSamplingMask(return_acs=True) on 5 samples, explicit mask "
+        "shapes incl. None entries; non-trivial = 1 <= L < N (kernels) / a returned ACS with at least one sample (generators) / "
+        ">= 2 answered ACS requests (histories); distinct = distinct protocol line / spec")
 PENDING_FINDINGS: list[str] = []
 EXTRA_LEAN_MODULES = ['DirectVerif.Lemmas.C04List', 'DirectVerif.Lemmas.C06Assemble', 'DirectVerif.Lemmas.C06Seed',
-                      'DirectVerif.Lemmas.C06Round']
+                      'DirectVerif.Lemmas.C06Round', 'DirectVerif.Lemmas.C06Crop']
 
 
 # --------------------------------------------------------------------------------------------------
@@ -643,7 +675,10 @@ def site_oracle(ctx: Ctx, seen: set, deep: bool):
                 if pick < 0.25:
                     crop[rng.randrange(len(crop))] = None
             eff = sh if crop is None else [c if c else sh[:-1][i] for i, c in enumerate(crop)] + [2]
-            cfg = multi_config(rng, name, [eff], rng.choice([2, 3]))
+            cfg = multi_config(rng, name, [eff], rng.choice([2, 3])) or multi_config(rng, name, [eff], 2)
+            if cfg is None:
+                crop, eff = None, sh
+                cfg = multi_config(rng, name, [eff], 2)
             if cfg is None:
                 continue
             fnames = ["file_%04d.h5" % rng.randrange(10000) for _ in range(3)] + ["a", "0"]
